@@ -277,3 +277,66 @@ class _(Contract):
     def spec(self, ex, a):
         g = a.graph
         return mk_graph(lambda v: g.N(v), lambda p, q: g.D(p, q), lambda p, q: g.U(p, q))
+
+
+@contract(f"{IDS}.line_4", props=["C01"])
+class _(_Line):
+    """line 4 (c-component factorisation): one sub-problem per district S_i of G - X, namely ID(s_i, v - s_i, P, G) -- the same graph
+    and distribution, the district as outcomes, every other node as treatments; ValueError unless G - X has at least two districts."""
+    allowed_raises = ("ValueError",)
+    inline_only = True            # identify() reads line_4's body (its recursive calls are checked there); this pins the line itself
+    finite_ok = False
+
+    def _keep(self, ex, a):
+        L, g = ex.L, a.g
+        keep = lambda v: L.And(g.N(v), L.Not(a.X.has(v)))
+        CUx = ex.closure(lambda p, q: L.And(g.U(p, q), keep(p), keep(q)), "rtcUx")
+        return keep, CUx
+
+    def raises(self, ex, a):
+        L = ex.L
+        keep, CUx = self._keep(ex, a)
+        return {"ValueError": L.Not(L.exists(2, lambda p, q: L.And(keep(p), keep(q), L.Not(CUx(p, q)))))}
+
+    def post(self, ex, a, res):
+        from y0vc.values import VComp
+        L, g = ex.L, a.g
+        alts = getattr(res, "alts", None)
+        if not isinstance(res, VComp) or not alts or len(alts) != 1 or len(alts[0][0]) != 1:
+            return {"type": L.F()}
+        (r,), guard, elt = alts[0]
+        if not (isinstance(elt, VObj) and getattr(elt.cls, "name", "") == "Identification"):
+            return {"type": L.F()}
+        keep, CUx = self._keep(ex, a)
+        q = elt.fields["query"]
+        O, Tr = q.fields["outcomes"], q.fields["treatments"]
+        fa = lambda body: L.forall_c([r], L.Implies(guard, body))
+        out = {
+            "outcomes-are-a-district": fa(L.exists(1, lambda w: L.And(keep(w), L.forall(1, lambda v: O.has(v) == L.And(keep(v), CUx(w, v)))))),
+            "every-district-occurs": L.forall(1, lambda w: L.Implies(keep(w), L.exists_c([r], L.And(guard, O.has(w))))),
+            "treatments-are-the-rest": fa(L.forall(1, lambda v: Tr.has(v) == L.And(g.N(v), L.Not(O.has(v))))),
+        }
+        from y0vc.contract import same_value
+        out.update({"graph." + k: fa(c) for k, c in same_value(L, elt.fields["graph"], mk_graph(lambda v: g.N(v), lambda p, q_: g.D(p, q_), lambda p, q_: g.U(p, q_))).items()})
+        if isinstance(elt.fields.get("estimand"), VExpr):
+            out["estimand.same"] = fa(elt.fields["estimand"].t == a.e.t)
+        else:
+            out["estimand.type"] = L.F()
+        return out
+
+
+@contract(f"{IDS}.line_5", props=["C02"])
+class _(_Line):
+    """line 5 (the function; identify() has its own inline copy, checked there): Unidentifiable exactly when the whole graph is a single
+    district, otherwise nothing happens."""
+    allowed_raises = ("Unidentifiable",)
+    inline_only = True
+    domain = "graph"
+
+    def raises(self, ex, a):
+        L, g = ex.L, a.g
+        CU = ex.closure(lambda p, q: g.U(p, q), "rtcU")
+        return {"Unidentifiable": L.And(L.exists(1, lambda v: g.N(v)), L.forall(2, lambda p, q: L.Implies(L.And(g.N(p), g.N(q)), CU(p, q))))}
+
+    def post(self, ex, a, res):
+        return {"none": z3.BoolVal(isinstance(res, VNone))}
